@@ -137,8 +137,14 @@ class RandomUtils():
 
     def remove_reserved_words(self, language):
         reserved_words = get_reserved_words(self.resource_path, language)
-        self.INITIAL_WORDS = self.INITIAL_WORDS - reserved_words
-        self.WORDS = self.WORDS - reserved_words
+        # Identifiers are built from pool words by gen_identifier, which may
+        # lower-case or capitalize them (class names): drop every word that
+        # equals a reserved word up to case (e.g. 'math' -> 'Math' in Groovy).
+        reserved_lower = {w.lower() for w in reserved_words}
+        self.INITIAL_WORDS = {w for w in self.INITIAL_WORDS
+                              if w.lower() not in reserved_lower}
+        self.WORDS = {w for w in self.WORDS
+                      if w.lower() not in reserved_lower}
 
     def integer(self, min_int=0, max_int=10):
         return self.r.randint(min_int, max_int)
